@@ -312,10 +312,14 @@ def generate() -> list[str]:
     target = common.LEAN / "MdIt" / "Generated" / "Tables.lean"
     target.parent.mkdir(parents=True, exist_ok=True)
     old = target.read_text() if target.exists() else None
+    changed = []
     if old != text:
         target.write_text(text)
-        return ["Tables.lean"]
-    return []
+        changed.append("Tables.lean")
+    from . import gen_regex
+
+    changed += gen_regex.generate()      # the translator for the library's regular expressions (Generated/Regex.lean)
+    return changed
 
 
 if __name__ == "__main__":
